@@ -528,7 +528,7 @@ def inv_hkdf(ns):
     x = ns.idx
     return S.And(VBool(ns.Titer.t == hkT(k, ns.info.t, (x - 1).t)),
                  S.len_(ns.Titer) == S.ite(x == 1, 0, ds),
-                 S.len_(ns.T) == ds * S.max_(x - 2, 0),
+                 S.len_(ns.T) == ds * (x - 1),
                  S.forall(lambda p: ns.T[p] == hkdf_byte(alg, ns.PRK, ns.info, p, ds), 0, S.len_(ns.T)))
 
 
@@ -540,13 +540,14 @@ def _hkdf_ensures(ns):
     return is_hkdf(ns.result, ns.algorithm, ns.PRK, ns.info, ns.L, ALGS[ns.algorithm.s][0])
 
 
-# (a) the RFC domain.  EXPECTED to leave one obligation open on the pinned tree: for 254*HashLen < L <= 255*HashLen the
-#     loop runs to x == 256 and bytearray([256]) raises ValueError (finding F2, class 'hkdf-expand-max-length').
+# (a) the RFC domain.  On the pinned tree one obligation stayed open: for 254*HashLen < L <= 255*HashLen the loop ran
+#     to x == 256 and bytearray([256]) raised ValueError (finding F2, class 'hkdf-expand-max-length'); repaired by the
+#     `fix:` commit 98e7690 in /repo, after which the whole RFC domain proves.
 contract(C + 'HKDF_expand', name='HKDF_expand@rfc5869-domain',
          variants={a: _hkdf_params(a) for a in HKDF_ALGS},
          requires=lambda ns: (ns.L >= 0) & (ns.L <= 255 * ALGS[ns.algorithm.s][0]),
          result=T.bytes(), ensures=_hkdf_ensures, raises={},
-         loops={1: LoopSpec(inv_hkdf, fingerprint='range(1, N+2)')},
+         loops={1: LoopSpec(inv_hkdf, fingerprint='range(1, N+1)')},
          prop=PROP,
          doc='HKDF_expand == HKDF-Expand of RFC 5869 for every PRK, info and every 0 <= L <= 255*HashLen, raising nothing')
 
@@ -555,7 +556,7 @@ contract(C + 'HKDF_expand', name='HKDF_expand@L<=254*HashLen',
          variants={a: _hkdf_params(a) for a in HKDF_ALGS},
          requires=lambda ns: (ns.L >= 0) & (ns.L <= 254 * ALGS[ns.algorithm.s][0]),
          result=T.bytes(), ensures=_hkdf_ensures, raises={},
-         loops={1: LoopSpec(inv_hkdf, fingerprint='range(1, N+2)')},
+         loops={1: LoopSpec(inv_hkdf, fingerprint='range(1, N+1)')},
          prop=PROP,
          doc='HKDF_expand == HKDF-Expand of RFC 5869 for every PRK, info and every 0 <= L <= 254*HashLen')
 
@@ -578,12 +579,12 @@ def _label_too_long(ns):
 contract(C + 'HKDF_expand_label',
          variants={a: {'secret': T.bytes(), 'label': T.bytes(), 'hashValue': T.bytes(), 'length': T.int(),
                        'algorithm': T.const(a)} for a in HKDF_ALGS},
-         requires=lambda ns: (ns.length >= 0) & (ns.length <= 254 * ALGS[ns.algorithm.s][0]),
+         requires=lambda ns: (ns.length >= 0) & (ns.length <= 255 * ALGS[ns.algorithm.s][0]),
          result=T.bytes(),
          ensures=lambda ns: is_hkdf(ns.result, ns.algorithm, ns.secret, hkdf_label(ns.length, ns.label, ns.hashValue),
                                     ns.length, ALGS[ns.algorithm.s][0]),
          raises={ValueError: ('iff', lambda ns: _label_too_long(ns) | (S.len_(ns.hashValue) > 255))},
-         loops={('HKDF_expand', 1): LoopSpec(inv_hkdf, fingerprint='range(1, N+2)')},
+         loops={('HKDF_expand', 1): LoopSpec(inv_hkdf, fingerprint='range(1, N+1)')},
          opts={'skolemize': True},
          prop=PROP,
          doc='HKDF_expand_label == HKDF-Expand(secret, HkdfLabel(length, "tls13 "+label, context), length); ValueError exactly '
@@ -627,7 +628,7 @@ for _a in HKDF_ALGS:
 contract(C + 'derive_secret', variants=_ds_variants,
          result=T.bytes(), ensures=_ds_ensures,
          raises={ValueError: ('iff', _label_too_long)},
-         loops={('HKDF_expand', 1): LoopSpec(inv_hkdf, fingerprint='range(1, N+2)')},
+         loops={('HKDF_expand', 1): LoopSpec(inv_hkdf, fingerprint='range(1, N+1)')},
          opts={'skolemize': True},
          prop=PROP,
          doc='derive_secret == HKDF-Expand-Label(secret, label, Transcript-Hash (of the empty string when no transcript is given), '
